@@ -54,11 +54,19 @@ type Env struct {
 	lib     *SpecLib
 	resolve func(name string) *CV // fallback name resolution (SSA names)
 	prog    *Program
-	side    *[]*Term // side facts generated during evaluation (e.g. validity of loaded values) – unused for now
+	unit    *Unit // when set, heap well-formedness facts of values loaded during evaluation are recorded here
+}
+
+// loaded: every reference stored in memory is below the allocation counter of that state (heap well-formedness).
+func (e *Env) loaded(v *Val) *Val {
+	if e.unit != nil && e.st != nil && e.st.Next != nil {
+		e.unit.facts = append(e.unit.facts, validFacts(v, e.st.Next, nil)...)
+	}
+	return v
 }
 
 func (e *Env) child() *Env {
-	return &Env{vars: map[string]*CV{}, parent: e, st: e.st, old: e.old, oldNext: e.oldNext, lib: e.lib, resolve: e.resolve, prog: e.prog}
+	return &Env{vars: map[string]*CV{}, parent: e, st: e.st, old: e.old, oldNext: e.oldNext, lib: e.lib, resolve: e.resolve, prog: e.prog, unit: e.unit}
 }
 
 func (e *Env) lookup(n string) *CV {
@@ -390,7 +398,7 @@ func (e *Env) sel(a *CV, name string) *CV {
 		}
 		for i := 0; i < st.NumFields(); i++ {
 			if st.Field(i).Name() == name {
-				return cvOfVal(e.st.load(st.Field(i).Type(), v.Ref, Add(v.Off, IntLit(fieldOffset(st, i)))))
+				return cvOfVal(e.loaded(e.st.loadKinds(st.Field(i).Type(), fieldKinds(p.Elem(), st, i), v.Ref, Add(v.Off, IntLit(fieldOffset(st, i))))))
 			}
 		}
 		efail("no field %s in %v", name, t)
@@ -438,6 +446,9 @@ func (e *Env) index(a, i *CV) *CV {
 		el := v.T.Underlying().(*types.Slice).Elem()
 		sz := sizeOf(el)
 		r := e.st.load(el, v.Ref, Add(v.Off, Mul(IntLit(sz), idx)))
+		if !idx.hasB {
+			e.loaded(r)
+		}
 		return cvOfVal(r)
 	case VString:
 		return &CV{K: CBV, T: Select(strRowOf(e.st, v), Add(v.Off, idx))}
@@ -708,6 +719,14 @@ func shiftCount(y *Term, w int) *Term {
 	}
 	if w2 < w {
 		return ZeroExt(w-w2, y)
+	}
+	// y = x & m with m < w cannot reach the width: plain truncation
+	if y.Op == "bvand" {
+		for _, a := range y.Args {
+			if a.Op == "bv" && a.V.Cmp(big.NewInt(int64(w))) < 0 {
+				return Extract(w-1, 0, y)
+			}
+		}
 	}
 	return Ite(BVCmp("bvuge", y, BVLit(uint64(w), w2)), BVLit(uint64(w), w), Extract(w-1, 0, y))
 }
